@@ -153,8 +153,9 @@ class DDEHistory:
                     f"DDEHistory: exceeded max_steps={len(self._y)}; "
                     "increase the bound or omit max_steps to allow growth."
                 )
-        self._t.append(float(t))
+        t = float(t)
         self._y[self._n] = y       # row assignment copies y into the buffer
+        self._t.append(t)          # only after the row is stored: a refused update leaves no orphaned time stamp
         self._n += 1
 
     def _grow(self) -> None:
